@@ -2,9 +2,11 @@ package main
 
 import (
 	"context"
+	"crypto/tls"
 	"encoding/binary"
 	"fmt"
 	"net"
+	"os"
 	"strings"
 	"sync"
 	"sync/atomic"
@@ -21,9 +23,10 @@ const waitLong = 20 * time.Second
 
 // behaviour of the harness' handler for one connection / packet (free mode).
 type behaviour struct {
-	hold  bool // wait until a shutdown has begun (or the run releases the holds)
-	reply bool
-	close bool
+	hold   bool // wait until a shutdown has begun (or the run releases the holds)
+	reply  bool
+	close  bool
+	hijack bool // w.Hijack() after the reply: the connection is the handler's (the harness') from then on
 }
 
 // World is one server under observation plus the harness-side actors.
@@ -52,6 +55,9 @@ type World struct {
 	holdOne             *sync.Once
 	auto                atomic.Bool // lift the holds when a shutdown releases the lock
 	nBad                int
+	notifyCh            chan struct{} // non-nil: NotifyStartedFunc blocks until it is closed
+	lsnBase             map[int]int   // listening sockets of the process before a start call that cannot succeed
+	held                net.Listener  // kept by the harness for the address-in-use start
 	saved               struct {
 		l  net.Listener
 		pc net.PacketConn
@@ -78,9 +84,27 @@ func NewWorld(mode string, seed int64, gated bool, yield int, sum *hx.Summary) *
 		return dns.DefaultMsgAcceptFunc(dh)
 	}
 	w.Srv.NotifyStartedFunc = func() {
+		// user code: the library must run it without srv.lock.  Gated: a park of its own; free
+		// mode: it blocks while the scenario says so (BlockNotify / ReleaseNotify).
+		role, known := w.roleHere()
+		if known {
+			w.R.Emit(sched.Event{Ev: "notify.enter", P: role.ID})
+		}
 		select {
 		case w.started <- struct{}{}:
 		default:
+		}
+		if known {
+			w.R.ParkHere(role, "h.notify")
+		}
+		w.mu.Lock()
+		ch := w.notifyCh
+		w.mu.Unlock()
+		if ch != nil {
+			<-ch
+		}
+		if known {
+			w.R.Emit(sched.Event{Ev: "notify.exit", P: role.ID})
 		}
 	}
 	w.R.Srv = w.Srv
@@ -110,6 +134,19 @@ func NewWorld(mode string, seed int64, gated bool, yield int, sum *hx.Summary) *
 		w.Srv.PacketConn, w.udpCli = pc, cl
 	}
 	return w
+}
+
+// BlockNotify makes NotifyStartedFunc block until ReleaseNotify.
+func (w *World) BlockNotify() { w.mu.Lock(); w.notifyCh = make(chan struct{}); w.mu.Unlock() }
+
+func (w *World) ReleaseNotify() {
+	w.mu.Lock()
+	ch := w.notifyCh
+	w.notifyCh = nil
+	w.mu.Unlock()
+	if ch != nil {
+		close(ch)
+	}
 }
 
 // ReleaseHolds lets every held handler continue (idempotent, non-blocking).
@@ -181,6 +218,9 @@ func (w *World) handle(rw dns.ResponseWriter, req *dns.Msg) {
 			case "close":
 				rw.Close()
 				closed = true
+			case "hijack":
+				rw.Hijack()
+				w.R.Emit(sched.Event{Ev: "handler.hijack", C: role.ID})
 			case "exit":
 				return
 			default: // free run after a divergence: finish politely
@@ -202,6 +242,10 @@ func (w *World) handle(rw dns.ResponseWriter, req *dns.Msg) {
 	}
 	if b.close {
 		rw.Close()
+	}
+	if b.hijack && !b.close && role.Kind == "w" {
+		rw.Hijack()
+		w.R.Emit(sched.Event{Ev: "handler.hijack", C: role.ID})
 	}
 }
 
@@ -244,7 +288,20 @@ func (w *World) Start(bad bool) int {
 	ch := make(chan string, 1)
 	w.startCh[p] = ch
 	w.nBad++
-	kind := w.nBad % 3
+	kind := w.nBad % 5
+	if bad {
+		if w.lsnBase == nil {
+			w.lsnBase = map[int]int{}
+		}
+		if kind == 4 && w.held == nil { // an address that is in use: the harness holds it
+			l, err := net.Listen("tcp", "127.0.0.1:0")
+			if err != nil {
+				hx.Die("listen: %v", err)
+			}
+			w.held = l
+		}
+		w.lsnBase[p] = listeningSockets()
+	}
 	w.mu.Unlock()
 	v := 0
 	if bad {
@@ -260,15 +317,21 @@ func (w *World) Start(bad bool) int {
 		func() {
 			defer func() { pan = recover() }()
 			if bad {
+				saved := w.Srv.TLSConfig
 				switch kind {
 				case 0:
 					w.Srv.Net, w.Srv.Addr = "bogus", ""
 				case 1:
 					w.Srv.Net, w.Srv.Addr = "tcp", "256.256.256.256:1"
+				case 2:
+					w.Srv.Net, w.Srv.Addr, w.Srv.TLSConfig = "tcp-tls", "127.0.0.1:0", nil
+				case 3:
+					w.Srv.Net, w.Srv.Addr, w.Srv.TLSConfig = "tcp-tls", "127.0.0.1:0", &tls.Config{}
 				default:
-					w.Srv.Net, w.Srv.Addr = "tcp-tls", "127.0.0.1:0"
+					w.Srv.Net, w.Srv.Addr = "tcp", w.held.Addr().String()
 				}
 				err = w.Srv.ListenAndServe()
+				w.Srv.TLSConfig = saved
 			} else if w.UseLAS {
 				err = w.Srv.ListenAndServe()
 			} else {
@@ -359,6 +422,54 @@ func (w *World) SpareListener() {
 	l := w.R.NewListener(1)
 	w.R.Emit(sched.Event{Ev: "h.sparelsn", L: 1})
 	w.Srv.Listener = l
+}
+
+// listeningSockets counts the TCP sockets of this process that are in the LISTEN state
+// (/proc/self/fd against /proc/self/net/tcp{,6}); -1 when /proc is not readable.
+func listeningSockets() int {
+	ents, err := os.ReadDir("/proc/self/fd")
+	if err != nil {
+		return -1
+	}
+	mine := map[string]bool{}
+	for _, e := range ents {
+		if t, err := os.Readlink("/proc/self/fd/" + e.Name()); err == nil && strings.HasPrefix(t, "socket:[") {
+			mine[strings.TrimSuffix(strings.TrimPrefix(t, "socket:["), "]")] = true
+		}
+	}
+	n := 0
+	for _, f := range []string{"/proc/self/net/tcp", "/proc/self/net/tcp6"} {
+		b, err := os.ReadFile(f)
+		if err != nil {
+			continue
+		}
+		for _, ln := range strings.Split(string(b), "\n")[1:] {
+			fs := strings.Fields(ln)
+			if len(fs) > 9 && fs[3] == "0A" && mine[fs[9]] {
+				n++
+			}
+		}
+	}
+	return n
+}
+
+// CheckListeners: a start call that failed must leave nothing listening (what it bound, it closes).
+func (w *World) CheckListeners(p int, res string, sc interface{}) {
+	w.mu.Lock()
+	base, ok := w.lsnBase[p]
+	delete(w.lsnBase, p)
+	held := w.held
+	w.held = nil
+	w.mu.Unlock()
+	if ok && base >= 0 && res == "fail" {
+		if now := listeningSockets(); now > base {
+			w.sum.Mis("server/failed-start-leaves-listener", fmt.Sprintf("a start call that returned an error left %d listening socket(s) open (Net=%s Addr=%s)",
+				now-base, w.Srv.Net, w.Srv.Addr), map[string]interface{}{"scenario": sc, "events": w.R.Events()})
+		}
+	}
+	if held != nil {
+		held.Close()
+	}
 }
 
 // BreakConfig leaves the server without anything to serve on (nil listener / packet conn, or for
